@@ -3,6 +3,7 @@ import ObiVerif.Lemmas.Iter
 import ObiVerif.Props.C03
 import ObiVerif.Props.C04
 import ObiVerif.Lemmas.Command
+import ObiVerif.Lemmas.CommandShapes
 /-!
 # C05 — command output is a function of input and options, not of parallelism (property theorems)
 
@@ -206,6 +207,180 @@ theorem summary_config_independent (cnt : Rec → Counters) (init : Counters)
 example : summaryOutput (fun r => [(r % 3, 1), (7, r)]) [] [[(1, exV 1)], [(2, exV 2), (0, exV 0)]]
     = [(0, 1), (1, 2), (2, 2), (7, 60)] := by
   rw [summary_deterministic _ _ _ exV 3 (by decide)]
+  decide
+
+/-! ## Third pass: the other command shapes
+
+For each shape: the bytes (or, where only that is claimed, the multiset of the texts) are independent of the batch
+partition, of the order in which the workers deliver and of the order in which the writer receives. -/
+
+/-- obisummary merges the per-worker summaries in index order (`rep = rep.Add(summaries[i])`): the result would
+be the same for ANY order of the merge (integer sums and map unions only, no floating point) -/
+theorem summary_merge_order_independent (cnt : Rec → Counters) (init : Counters)
+    (shares shares' : List (List Batch)) (h : shares'.Perm shares) :
+    summaryOutput cnt init shares' = summaryOutput cnt init shares := by
+  rw [summaryOutput_flat, summaryOutput_flat]
+  apply mergeCounters_perm
+  unfold items
+  exact (h.flatten).flatMap_right _
+
+/-- **Group-by then per-group function** (obiuniq: `key` = (sequence, categories), `g` = `BioSequenceSlice.Merge`
+observed up to the identifier; obiclean's per-sample graphs): `arr` = ANY arrival order of the input batches at the
+stage that accumulates the data set (so: any batch partition, any read/parse schedule), `ks` = the classes in ANY
+order of delivery by the workers.  For a per-class function that does not depend on the order of the members
+(`hg`: for obiuniq this is `ObiVerif.Props.C06.uniq_perm`), the texts written are, up to their order, the texts
+of the classes of the input `ks0`.  (The ORDER of the output is not claimed for this shape.) -/
+theorem groupby_command_deterministic (key : Rec → Nat) (g : List Rec → Command.Bytes)
+    (hg : ∀ l l', l.Perm l' → g l = g l') (v : Nat → List Rec) (n : Nat)
+    (arr : List Batch) (harr : arr.Perm ((List.range n).map fun k => (k, v k)))
+    (ks ks0 : List Nat) (hnd : ks.Nodup) (hnd0 : ks0.Nodup)
+    (hks : ∀ k, k ∈ ks ↔ ∃ r ∈ inFlat v n, key r = k) (hks0 : ∀ k, k ∈ ks0 ↔ ∃ r ∈ inFlat v n, key r = k) :
+    (groupOutputs key g (Iter.flatten arr) ks).Perm (groupOutputs key g (inFlat v n) ks0) := by
+  have hdb := flatten_perm_inFlat v n arr harr
+  have hk : ks.Perm ks0 := (List.perm_ext_iff_of_nodup hnd hnd0).mpr (fun k => (hks k).trans (hks0 k).symm)
+  have e : groupOutputs key g (Iter.flatten arr) ks = groupOutputs key g (inFlat v n) ks := by
+    unfold groupOutputs
+    apply List.map_congr_left
+    intro k _
+    exact hg _ _ (hdb.filter _)
+  rw [e]
+  exact hk.map _
+
+/-- two runs of a group-by command on the same records (different batch partitions, arrival orders, class
+delivery orders): every rendering of the output that does not look at the order of the records (`canon`: the
+sorted multiset the harness compares) gives the same bytes -/
+theorem groupby_command_config_independent (key : Rec → Nat) (g : List Rec → Command.Bytes)
+    (hg : ∀ l l', l.Perm l' → g l = g l')
+    (canon : List Command.Bytes → Command.Bytes) (hc : ∀ a b, a.Perm b → canon a = canon b)
+    (v₁ : Nat → List Rec) (n₁ : Nat) (arr₁ : List Batch) (h₁ : arr₁.Perm ((List.range n₁).map fun k => (k, v₁ k)))
+    (ks₁ : List Nat) (hnd₁ : ks₁.Nodup) (hks₁ : ∀ k, k ∈ ks₁ ↔ ∃ r ∈ inFlat v₁ n₁, key r = k)
+    (v₂ : Nat → List Rec) (n₂ : Nat) (arr₂ : List Batch) (h₂ : arr₂.Perm ((List.range n₂).map fun k => (k, v₂ k)))
+    (ks₂ : List Nat) (hnd₂ : ks₂.Nodup) (hks₂ : ∀ k, k ∈ ks₂ ↔ ∃ r ∈ inFlat v₂ n₂, key r = k)
+    (hin : inFlat v₁ n₁ = inFlat v₂ n₂) :
+    canon (groupOutputs key g (Iter.flatten arr₁) ks₁) = canon (groupOutputs key g (Iter.flatten arr₂) ks₂) := by
+  apply hc
+  have a := groupby_command_deterministic key g hg v₁ n₁ arr₁ h₁ ks₁ ks₂ hnd₁ hnd₂ hks₁ (by rw [hin]; exact hks₂)
+  have b := groupby_command_deterministic key g hg v₂ n₂ arr₂ h₂ ks₂ ks₂ hnd₂ hnd₂ hks₂ hks₂
+  rw [hin] at a
+  exact a.trans b.symm
+
+/-- **Load in batch order then a function of the whole data set** (obiclean with `SortBatches().Load()`): the
+bytes are `G` of the processed input in input order — for every `G`, order-sensitive ones included -/
+theorem loaded_command_deterministic (G : List Rec → Command.Bytes) (f : Rec → List Rec)
+    (v : Nat → List Rec) (n : Nat) (ks : List Nat) (hp : ks.Perm (List.range n))
+    (arr1 : List Batch) (h1 : arr1.Perm (workerStage f (ks.map fun k => (k, v k)))) :
+    loadedCommand G arr1 = G ((inFlat v n).flatMap f) := by
+  unfold loadedCommand
+  rw [(worker_isStream f v n ks hp arr1 h1).sort.2.2]
+
+/-- …whereas `Load()` on the arrival order (obiclean before the fix `C05-obiclean-load-order`) is NOT a function
+of the input: two arrival orders of the same two batches, a `G` that prints the records in data-set order
+(concrete counterexample, by evaluation) -/
+theorem load_arrival_order_dependent :
+    ∃ (G : List Rec → Command.Bytes) (arr arr' : List Batch), arr'.Perm arr ∧
+      loadedCommandArrival G arr ≠ loadedCommandArrival G arr' :=
+  ⟨fun l => l.map (·.toUInt8), [(0, [1]), (1, [2])], [(1, [2]), (0, [1])], by decide, by decide⟩
+
+/-- **Two inputs zipped** (obipairing, obigrep --paired-with): the two files are cut in batches independently
+(`va na`, `vb nb`), their batches reach `PairTo` in any orders `ka`, `kb`, the paired batches are re-ordered in any
+way `pW` by the assembling workers before the writer: the bytes are the texts of the pairs (i-th record of one file,
+i-th record of the other), in order -/
+theorem paired_command_deterministic (size : Nat) (hsize : 0 < size) (asm : Rec × Rec → Command.Bytes)
+    (va : Nat → List Rec) (na : Nat) (ka : List Nat) (hpa : ka.Perm (List.range na))
+    (vb : Nat → List Rec) (nb : Nat) (kb : List Nat) (hpb : kb.Perm (List.range nb))
+    (hlen : (inFlat va na).length = (inFlat vb nb).length)
+    (pW : List (Nat × Command.Bytes) → List (Nat × Command.Bytes)) (hW : ∀ l, (pW l).Perm l) :
+    pairedCommand size asm (ka.map fun k => (k, va k)) (kb.map fun k => (k, vb k)) pW
+      = (((inFlat va na).zip (inFlat vb nb)).map asm).flatten := by
+  have hs := pairTo_spec size hsize va na ka hpa vb nb kb hpb hlen
+  have hk := hs.1
+  have hf := hs.2
+  unfold pairedCommand
+  generalize pairTo size (ka.map fun k => (k, va k)) (kb.map fun k => (k, vb k)) = out at hk hf ⊢
+  have htk : (out.map (pairBatchText asm)).map (·.1) = List.range (out.map (pairBatchText asm)).length := by
+    rw [List.map_map, List.length_map]
+    exact hk
+  have hrep := numbered_rep_gen ([] : Command.Bytes) _ htk
+  generalize htxt : out.map (pairBatchText asm) = txt at hrep ⊢
+  obtain ⟨w, m, hw⟩ : ∃ (w : Nat → Command.Bytes) (m : Nat), txt = (List.range m).map fun k => (k, w k) :=
+    ⟨_, _, hrep⟩
+  subst hw
+  obtain ⟨h1, h2⟩ := keyed_of_perm_gen w (List.range m) (pW _) (hW _)
+  rw [h2, ObiVerif.Props.C04.raw_writer_perm w m _ h1]
+  have e : (List.range m).map w = out.map fun pb => (pb.2.map asm).flatten := by
+    have := congrArg (List.map (·.2)) htxt
+    simpa [List.map_map, Function.comp_def, pairBatchText] using this.symm
+  rw [e, ← hf, List.flatMap_def]
+  have := flatten_map_flatten asm (out.map (·.2))
+  simpa [List.map_map, Function.comp_def] using this
+
+/-- **One-to-many worker through the record → slice adapter** (obipcr, obimultiplex: `MakeIWorker(worker, breakOnError)`,
+output slice grown on demand by any growth function `g` that grows): when no record makes the run stop
+(`breakOnError` off, or no failing record), the bytes are the texts of the results of the accepted records, in
+input order — for every batch partition, reading order `ks` and re-ordering `pW` of the pushed batches -/
+theorem adapter_command_deterministic (g : Nat → Nat) (hg : Grows g) (worker : SeqWorker) (boe : Bool)
+    (fmt : Rec → Command.Bytes) (v : Nat → List Rec) (n : Nat) (ks : List Nat) (hp : ks.Perm (List.range n))
+    (hno : boe = true → ∀ k, ∀ r ∈ v k, (worker r).isSome)
+    (pW : List Batch → List Batch) (hW : ∀ l, (pW l).Perm l) :
+    adapterCommand g worker boe fmt (ks.map fun k => (k, v k)) pW
+      = some (((keepOk worker (inFlat v n)).map fmt).flatten) := by
+  have hw : ∀ b ∈ (ks.map fun k => ((k, v k) : Batch)), seqToSlice g worker boe b.2 = .ok (keepOk worker b.2) := by
+    intro b hb
+    obtain ⟨k, _, rfl⟩ := List.mem_map.mp hb
+    rw [seqToSlice_eq_spec g hg]
+    unfold sliceSpec
+    cases boe with
+    | false => simp [filter_true']
+    | true =>
+      have hall : ¬ ∃ x, x ∈ v k ∧ worker x = none := by
+        intro ⟨x, hx, h⟩
+        have := hno rfl k x hx
+        simp [h] at this
+      simp [hall, filter_true']
+  unfold adapterCommand iWorker
+  rw [sliceWorkerStage_ok _ (keepOk worker) boe _ hw]
+  simp only [List.map_map, Function.comp_def]
+  have s := isStream_of_perm_keyed (fun k => keepOk worker (v k)) n ks hp (pW _) (hW _)
+  rw [write_isStream fmt s]
+  congr 3
+  unfold inFlat
+  generalize List.range n = l
+  induction l with
+  | nil => rfl
+  | cons a t ih => simp [List.flatMap_cons, keepOk_append, ih]
+
+/-- non-vacuity (test on a sample): two files cut differently (3+0+2 and 4+1 records), batches reaching `PairTo`
+in the orders 2,0,1 and 1,0, paired batches reversed before the writer -/
+example : pairedCommand 2 (fun p => [p.1.toUInt8, p.2.toUInt8]) ([2, 0, 1].map fun k => (k, exV k))
+      ([1, 0].map fun k => (k, if k = 0 then [20, 21, 22, 23] else [24])) List.reverse
+    = [10, 20, 11, 21, 12, 22, 13, 23, 14, 24] := by
+  rw [paired_command_deterministic 2 (by decide) _ exV 3 [2, 0, 1] (by decide)
+    (fun k => if k = 0 then [20, 21, 22, 23] else [24]) 2 [1, 0] (by decide) (by decide) _ (fun l => List.reverse_perm l)]
+  decide
+
+/-- non-vacuity (test on a sample): classes by parity of a data set that arrived as batches 2,0,1, classes delivered
+odd first; `g` = the sum of the members (order-free) -/
+example : (groupOutputs (fun r => r % 2) (fun l => [l.sum.toUInt8]) (Iter.flatten ([2, 0, 1].map fun k => (k, exV k))) [1, 0]).Perm
+    (groupOutputs (fun r => r % 2) (fun l => [l.sum.toUInt8]) (inFlat exV 3) [0, 1]) := by
+  have hmem : ∀ k, (k = 0 ∨ k = 1) ↔ ∃ r ∈ inFlat exV 3, r % 2 = k := by
+    intro k
+    have e : inFlat exV 3 = [10, 11, 12, 13, 14] := by decide
+    rw [e]
+    constructor
+    · rintro (rfl | rfl)
+      · exact ⟨10, by decide, rfl⟩
+      · exact ⟨11, by decide, rfl⟩
+    · rintro ⟨r, _, rfl⟩
+      exact Nat.mod_two_eq_zero_or_one r
+  exact groupby_command_deterministic _ _ (fun _ _ h => by rw [h.sum_nat]) exV 3 _ (by decide) _ _ (by decide) (by decide)
+    (fun k => by rw [← hmem k]; simp [or_comm]) (fun k => by rw [← hmem k]; simp)
+
+/-- non-vacuity (test on a sample): a worker that rejects odd records and doubles the others, 3 batches read in
+the order 1,0,2, pushed batches reversed -/
+example : adapterCommand growMin (fun r => if r % 2 = 0 then some [r, r] else none) false (fun r => [r.toUInt8])
+      ([1, 0, 2].map fun k => (k, exV k)) List.reverse = some [10, 10, 12, 12, 14, 14] := by
+  rw [adapter_command_deterministic growMin growMin_grows _ false _ exV 3 [1, 0, 2] (by decide) (by intro h; cases h)
+    _ (fun l => List.reverse_perm l)]
   decide
 
 
